@@ -11,19 +11,21 @@ Init == /\ lay = [calls |-> <<>>, wrap |-> "fn", extra |-> "none", pre |-> FALSE
                   split |-> 0, recv |-> "ds"]
         /\ done = FALSE
 AddCall == /\ ~done /\ Len(lay.calls) < MaxCalls
-           /\ \E op \in Ops, p \in Params, b \in (IF Mode = "line" THEN {"none", "dot"} ELSE Breaks),
-                 d \in (IF Mode = "line" THEN {"none"} ELSE Decos) :
+           \* Mode "cline": like "line", plus a break after the parenthesis with / without a comment-only line before the lambda
+           /\ \E op \in Ops, p \in Params,
+                 b \in (CASE Mode = "line" -> {"none", "dot"} [] Mode = "cline" -> {"none", "dot", "paren"} [] OTHER -> Breaks),
+                 d \in (CASE Mode = "line" -> {"none"} [] Mode = "cline" -> {"none", "cline"} [] OTHER -> Decos) :
                  lay' = [lay EXCEPT !.calls = Append(lay.calls, CallRec(op, p, b, d))]
            /\ UNCHANGED done
 Finish == /\ ~done /\ Len(lay.calls) >= 1
-          /\ \E w \in (IF Mode = "line" THEN {"fn", "cond"} ELSE Wraps),
-                ex \in (IF Mode = "line" THEN {"none"} ELSE Extras),
-                pr \in (IF Mode = "line" THEN {FALSE} ELSE BOOLEAN),
-                kd \in (IF Mode = "line" THEN {"lambda"} ELSE {"lambda", "def", "var", "wrapped"}),
+          /\ \E w \in (IF Mode \in {"line", "cline"} THEN {"fn", "cond"} ELSE Wraps),
+                ex \in (IF Mode \in {"line", "cline"} THEN {"none"} ELSE Extras),
+                pr \in (IF Mode \in {"line", "cline"} THEN {FALSE} ELSE BOOLEAN),
+                kd \in (IF Mode \in {"line", "cline"} THEN {"lambda"} ELSE {"lambda", "def", "var", "wrapped"}),
                 \* split = k > 0: calls 1..k and k+1.. are two separate chains in one statement, second(a.Op(..), b.Op(..));
                 \* recv = "short": the receivers are one-letter variables (a, b)
-                sp \in (IF Len(lay.calls) >= 2 /\ Mode # "wide" THEN {0, 1} ELSE {0}),
-                rc \in (IF Mode # "wide" THEN {"ds", "short"} ELSE {"ds"}) :     \* ("wide" = exhaustive over the decorations)
+                sp \in (IF Len(lay.calls) >= 2 /\ Mode \notin {"wide", "cline"} THEN {0, 1} ELSE {0}),
+                rc \in (IF Mode \notin {"wide", "cline"} THEN {"ds", "short"} ELSE {"ds"}) :     \* ("wide" = exhaustive over the decorations)
                 /\ (sp > 0 => ex = "none")
                 /\ lay' = [lay EXCEPT !.wrap = w, !.extra = ex, !.pre = pr, !.kind = kd, !.split = sp, !.recv = rc]
           /\ done' = TRUE
